@@ -63,6 +63,28 @@ void h_write_buf(void)
   }
 }
 
+#elif defined(T_HDR)
+/* ---------------- the 12-byte header: RFC 1035 4.1.1 bit layout (+ RFC 6891 extended RCODE split) ------------------------------ */
+static _Bool g_has_opt; static size_t g_cnt[4];
+const ares_dns_rr_t *ares_dns_get_opt_rr_const(const ares_dns_record_t *r) { static char t; return g_has_opt ? (const ares_dns_rr_t *)&t : NULL; }
+size_t ares_dns_record_query_cnt(const ares_dns_record_t *r) { return g_cnt[0]; }
+size_t ares_dns_record_rr_cnt(const ares_dns_record_t *r, ares_dns_section_t s) { return g_cnt[s]; }
+void h_write_header(void)
+{
+  static ares_dns_record_t rec; rec.id = nondet_u16(); rec.flags = (unsigned short)nondet_u16(); rec.opcode = (ares_dns_opcode_t)(nondet_uint() % 16); rec.rcode = (ares_dns_rcode_t)(nondet_uint() % 4096);
+  g_has_opt = nondet_bool(); for (int i = 0; i < 4; i++) g_cnt[i] = nondet_size() % 65536; g_blen = 0; g_oom = nondet_bool(); g_w = 0;
+  ares_status_t rv = ares_dns_write_header(&rec, BUF);
+  if (rv != ARES_SUCCESS) { __CPROVER_assert(g_oom, "C03/C14: the header write fails only for lack of memory"); return; }
+  __CPROVER_assert(g_w == 6 && g_blen == 12, "C03: the header is six 16-bit words");
+  for (int i = 0; i < 6; i++) __CPROVER_assert(g_wkind[i] == W_BE16 && g_wpos[i] == (size_t)(2 * i), "C03: header words are written big endian, in order");
+  unsigned long f = g_wval[1];
+  __CPROVER_assert(g_wval[0] == rec.id, "C03: ID");
+  __CPROVER_assert(((f >> 15) & 1) == !!(rec.flags & ARES_FLAG_QR) && ((f >> 10) & 1) == !!(rec.flags & ARES_FLAG_AA) && ((f >> 9) & 1) == !!(rec.flags & ARES_FLAG_TC) && ((f >> 8) & 1) == !!(rec.flags & ARES_FLAG_RD) && ((f >> 7) & 1) == !!(rec.flags & ARES_FLAG_RA) && ((f >> 5) & 1) == !!(rec.flags & ARES_FLAG_AD) && ((f >> 4) & 1) == !!(rec.flags & ARES_FLAG_CD), "C03: each header flag bit is set exactly when the record has that flag (QR AA TC RD RA AD CD)");
+  __CPROVER_assert(((f >> 6) & 1) == 0, "C03: the reserved Z bit stays clear");
+  __CPROVER_assert(((f >> 11) & 0xF) == (unsigned long)rec.opcode, "C03: OPCODE in bits 11-14");
+  __CPROVER_assert((f & 0xF) == ((rec.rcode > 15 && !g_has_opt) ? (unsigned long)ARES_RCODE_SERVFAIL : ((unsigned long)rec.rcode & 0xF)), "C03: RCODE = low four bits of the response code (the rest travels in OPT); without OPT an extended code degrades to SERVFAIL");
+  __CPROVER_assert(g_wval[2] == (g_cnt[0] & 0xFFFF) && g_wval[3] == (g_cnt[1] & 0xFFFF) && g_wval[4] == (g_cnt[2] & 0xFFFF) && g_wval[5] == (g_cnt[3] & 0xFFFF), "C03: QDCOUNT ANCOUNT NSCOUNT ARCOUNT");
+}
 #elif defined(T_BINSTR)
 /* ---------------- character-strings: chunks of <= 255 bytes, an empty string is one zero length octet ---------- */
 void h_write_binstr(void)
